@@ -1,5 +1,6 @@
 """C03 - nothing is served before a completed login; re-USER drops the old login."""
 
+import asyncio
 import itertools
 import random
 
@@ -52,17 +53,112 @@ def make_tree(users):
     return t
 
 
+class SlowManager(aioftp.MemoryUserManager):
+    """the shipped manager with a directory service that takes time: get_user / authenticate really suspend"""
+
+    def __init__(self, users, delay):
+        super().__init__(users)
+        self.delay = delay
+
+    async def get_user(self, login):
+        await asyncio.sleep(self.delay)
+        return await super().get_user(login)
+
+    async def authenticate(self, user, password):
+        await asyncio.sleep(self.delay)
+        return await super().authenticate(user, password)
+
+    async def notify_logout(self, user):
+        await asyncio.sleep(self.delay)
+        return await super().notify_logout(user)
+
+
+async def burst_session(net, hyg, plan, w, users, viol, mon):
+    """an established login, then `USER <password account>` and further commands written in one piece: everything behind the
+    USER is unauthenticated, whatever is still in flight when the lines are parsed"""
+    p = RawPeer(net, 2121)
+    await p.connect()
+    pre = plan["pre"]
+    for line in pre:
+        await p.cmd(line)
+    await net.settle()
+    lead = plan.get("lead", 0)      # commands of the burst in front of the USER: legitimate work of the old login (maybe slow)
+    ncalls, nlisten, tree0 = len(w.ctl.calls), len(net.servers), w.tree()
+    all_lines = plan["burst"]
+    p.writer.write("".join(x + "\r\n" for x in all_lines).encode())
+    codes = []
+    for j, _ in enumerate(all_lines):
+        r = await p.read_reply(wait=10)
+        codes.append(r.code if r not in (None, "EOF") else str(r))
+        if r in (None, "EOF"):
+            break
+        if r.code.startswith("1"):
+            r2 = await p.read_reply(wait=10)
+            codes[-1] += "+" + (r2.code if r2 not in (None, "EOF") else str(r2))
+        if j == lead - 1:
+            # the old login's last command is answered: handlers run one after the other, so from here on only the USER and
+            # what follows it can be at work
+            ncalls, nlisten, tree0 = len(w.ctl.calls), len(net.servers), w.tree()
+    lines, codes_all = all_lines[lead:], codes
+    codes = codes[lead:]
+    mon["unauthenticated_command"] += len(lines) - 1
+    mon["backend_untouched"] += 1
+    where = f"after {pre}, burst {all_lines} (user manager delay {plan.get('delay')}, back-end delay {plan.get('bdelay')}): replies {codes_all}"
+    served = [(ln, c) for ln, c in zip(lines[1:], codes[1:]) if ln.split(" ")[0].upper() in GUARDED and c[0] in "123"]
+    if codes[:1] != ["331"]:
+        viol.append({"key": "login-reply-differs:USER", "msg": f"{where}: replies {codes}"})
+    if served:
+        viol.append({"key": f"served-before-login:{served[0][0].split(' ')[0].upper()}",
+                     "msg": f"{where}: replies {codes} - commands behind the USER were served without its password"})
+    if len(w.ctl.calls) != ncalls:
+        viol.append({"key": "backend-touched-before-login:burst", "msg": f"{where}: back end called {w.ctl.calls[ncalls:][:3]}"})
+    if len(net.servers) != nlisten:
+        viol.append({"key": "listener-before-login:burst", "msg": f"{where}: a passive listener was opened"})
+    if w.tree() != tree0:
+        viol.append({"key": "tree-changed-before-login:burst", "msg": f"{where}: the tree changed"})
+    mon["identity_probe"] += 1
+    pr = await p.cmd("MLST /whoami")
+    if pr not in (None, "EOF") and pr.code[0] in "123":
+        viol.append({"key": "probe-served-while-logged-out", "msg": f"{where}: MLST afterwards answered {pr.code}"})
+    p.cut("fin")
+    return [[ln, c] for ln, c in zip(all_lines, codes_all)]
+
+
 async def session(net, hyg, plan):
     users = USERS_A if plan["users"] == "A" else USERS_B
-    au = [aioftp.User(u, pw, base_path=base_of(u)) for u, pw in users.items()]
-    w = W.World(net, tree=None, users=au)
+    ucfg = plan.get("ucfg")
+    extra = {}
+    if ucfg == "home":
+        extra = {"home_path": "/d"}         # a non-default home: still nothing of the tree is looked at before the login is complete
+    au = [aioftp.User(u, pw, base_path=base_of(u), **extra, **({"maximum_connections": 1} if ucfg == "limit" and u in ("alice", "carol") else {}))
+          for u, pw in users.items()]
+    w = W.World(net, tree=None, users=SlowManager(au, plan["delay"]) if plan.get("delay") else au)
     await w.start()
     w.populate(make_tree(users))
     viol = []
     mon = {"unauthenticated_command": 0, "identity_probe": 0, "backend_untouched": 0}
     transcript = []
     try:
+        if plan.get("bdelay"):
+            w.ctl.delay = lambda op, path, n: plan["bdelay"]
+        if plan.get("burst"):
+            transcript = await burst_session(net, hyg, plan, w, users, viol, mon)
+            await w.stop()
+            return {"violations": viol, "monitors": mon, "sig": sig_of(transcript), "nontrivial": True,
+                    "sample": {"users": plan["users"], "transcript": transcript}}
         m = Model(users, {})
+        held = set()
+        holders = []
+        if ucfg == "limit":
+            # the accounts with a connection limit of 1 are in use by other sessions: USER for them is refused (530) and must
+            # not leave the session identified
+            for u in ("alice", "carol"):
+                hp = RawPeer(net, 2121, name="holder-" + u)
+                await hp.connect()
+                await hp.cmd("USER " + u)
+                await hp.cmd("PASS " + users[u])
+                holders.append(hp)
+                held.add(u)
         p = RawPeer(net, 2121)
         await p.connect()
         rng = random.Random(plan["seed"])
@@ -77,6 +173,10 @@ async def session(net, hyg, plan):
             V = verb.upper()
             if V in ("USER", "PASS"):
                 e = m.step(V, arg.rstrip())
+                if V == "USER" and arg.rstrip() in held:
+                    from ..ftpmodel import Expect
+                    m.user, m.logged = None, False
+                    e = Expect(["530"], note="account at its connection limit")
             line = verb + ((" " + arg) if arg else "")
             r = await p.cmd(line)
             # transfers: a mark may come first
@@ -96,6 +196,11 @@ async def session(net, hyg, plan):
                 if not e.accepts(r.code):
                     viol.append({"key": f"login-reply-differs:{V}", "msg": f"{transcript}: model expects {e}"})
                     break
+                if not m.logged:
+                    mon["backend_untouched"] += 1
+                    if len(w.ctl.calls) != ncalls:
+                        viol.append({"key": f"backend-touched-before-login:{V}",
+                                     "msg": f"{transcript}: back end called {w.ctl.calls[ncalls:][:3]} by a {V} that did not complete a login"})
             elif not logged_before:
                 mon["unauthenticated_command"] += 1
                 mon["backend_untouched"] += 1
@@ -131,6 +236,8 @@ async def session(net, hyg, plan):
                                         f"MLST /whoami -> {pr.code} {pr.lines}"})
                     break
         p.cut("fin")
+        for hp in holders:
+            hp.cut("fin")
         await w.stop()
         nt = any(c[0].upper().startswith(("USER", "PASS")) for c in transcript[1:])
         return {"violations": viol, "monitors": mon, "sig": sig_of(transcript), "nontrivial": nt,
@@ -170,5 +277,28 @@ def gen_cases(tier, seed):
     nrand = 300 if tier == "quick" else 6000
     for i in range(nrand):
         plans.append({"users": "A" if i % 2 else "B", "seed": seed * 99991 + i, "length": 25})
+    # non-default user configuration: home_path, accounts at their connection limit
+    for ucfg in ("home", "limit"):
+        for users in ("A", "B"):
+            for n in range(1, 3 if tier == "quick" else 4):
+                for idx, seq in enumerate(itertools.product(ALPHABET, repeat=n)):
+                    if n == 3 and (idx + seed) % 3:
+                        continue
+                    plans.append({"users": users, "seed": seed, "ucfg": ucfg, "commands": [list(x) for x in seq]})
+        for i in range(60 if tier == "quick" else 2000):
+            plans.append({"users": "A" if i % 2 else "B", "seed": seed * 7919 + i, "length": 25, "ucfg": ucfg})
+    # re-USER and further commands written in one piece, user manager and/or back end that really suspend
+    tails = [["PWD", "MKD /pwned", "MLST /whoami", "PASV"], ["CWD /d", "PWD"], ["EPSV", "RETR /whoami"], ["DELE /whoami", "RNFR /whoami"],
+             ["STOR /up", "LIST /"], ["PASS wrong", "MLST /whoami", "MKD /x"], ["MLSD /d"], ["PWD"] * 6]
+    for pre in (["USER bob"], ["USER anonymous"], ["USER carol", "PASS pw2"], ["USER bob", "CWD /d"]):
+        for acct in ("alice", "carol"):
+            for tail in tails:
+                for delay, bdelay in ((0, 0), (0.003, 0), (0, 0.002), (0.003, 0.002)):
+                    plans.append({"users": "A", "seed": seed, "pre": pre, "burst": ["USER " + acct] + tail, "delay": delay, "bdelay": bdelay})
+                    if bdelay and tail is tails[0]:
+                        plans.append({"users": "A", "seed": seed, "pre": pre, "lead": 1, "burst": ["MKD /lead", "USER " + acct] + tail,
+                                      "delay": delay, "bdelay": bdelay})
+                        plans.append({"users": "A", "seed": seed, "pre": pre, "lead": 2, "burst": ["MLST /whoami", "RMD /d", "USER " + acct] + tail[:2],
+                                      "delay": delay, "bdelay": bdelay})
     per = 60
     return [{"plans": plans[i:i + per]} for i in range(0, len(plans), per)]
